@@ -366,3 +366,25 @@ pub fn run(tier: Tier, seed: u64) -> i32 {
     report.assume("the full 2^23 x 2^16 product is not enumerated; each dimension is closed against an alphabet of the other");
     report.finish()
 }
+
+/// Replay of one recorded (size, opcode) header on a fresh connection through both emitters and both decoders.
+pub fn replay(r: &serde_json::Value) -> Option<Result<String, String>> {
+    let key = mc::util::unhex_n::<40>(r["session_key"].as_str()?);
+    let c = &r["case"];
+    let (size, op) = (c["size"].as_u64()? as u32, c["opcode"].as_u64()? as u16);
+    let (mut se, _) = ciphers::wrath_server(&key).split();
+    let (_, mut cd) = ciphers::wrath_client(&key).split();
+    let mut ks = wrath_stream(&key, Dir::ServerToClient);
+    // replay the segment up to the recorded header when its start is known
+    if let Some(first) = c["first_size_of_segment"].as_u64() {
+        let first = first as u32;
+        if first <= size && size - first < (1 << 14) {
+            for s in first..size {
+                for &o in &[0u16, 1, 0xFF, 0x100, 0x1EE, 0x7FFF, 0x8000, 0xFF00, 0xFFFF, 0x1234, 0x3412] {
+                    let _ = one_header(&mut se, &mut cd, &mut ks, s, o);
+                }
+            }
+        }
+    }
+    Some(one_header(&mut se, &mut cd, &mut ks, size, op).map(|l| format!("{l}-byte header round-trips")).map_err(|(c, m)| format!("{c}: {m}")))
+}
